@@ -281,6 +281,14 @@ def gen_names(rng, n, allow_hash, allow_sub, friendly=False):
         seen.add(name)
         keys.add(key)
         names.append(name)
+        if b"#" in name and rng.random() < 0.3:     # a literal sibling that overlaps the enumeration (x#3/ and x1/)
+            head, tail = name.split(b"#", 1)
+            j = 0
+            while j < len(tail) and P5.isdig(tail[j]):
+                j += 1
+            twin = head + str(rng.randrange(int(tail[:j]) + 1)).encode() + tail[j:]
+            if twin not in seen:
+                seen.add(twin); names.append(twin)
         if not friendly and not sub and b":" in name and rng.random() < 0.2 and len(names) < n:   # same key, other types
             other = name.split(b":")[0] + rng.choice([b":f", b":T", b":ss"])
             if other not in seen:
@@ -385,7 +393,7 @@ def fetch_tables(trees, log):
     return ok
 
 def gen(rng, tier, dist):
-    ntrees = 900 if tier == "quick" else 25000
+    ntrees = 2500 if tier == "quick" else 40000
     per = 14 if tier == "quick" else 24
     trees = []
     for _ in range(ntrees):
